@@ -12,7 +12,7 @@ from pymemcache.exceptions import MemcacheIllegalInputError
 PROPERTY = "C20"
 LEVEL = "exploration"
 # parts repeated in a child interpreter started with -O and with warnings turned into errors (vlib/runner.py, MODES)
-MODE_PARTS = {"OW": ['class-exhaustive', 'every-position', 'length-boundaries', 'same-object-histories', 'server-unreachable', 'full-alphabet-short']}
+MODE_PARTS = {"OW": ['key-objects', 'class-exhaustive', 'every-position', 'length-boundaries', 'same-object-histories', 'server-unreachable', 'full-alphabet-short']}
 RULE = ("case = (key, prefix, allow_unicode_keys, path); path in helper (check_key_helper) / client "
         "(Client.check_key) / pooled (PooledClient.check_key) / wire-client, wire-pooled, wire-hash (a get over the "
         "fake network; the memcached model's parsed command must carry exactly prefix+encoded key). Enumerated: all "
@@ -134,6 +134,84 @@ def check(case):
             if srv.errors or len(srv.log) != 1 or srv.log[0].get("verb") != b"get" or srv.log[0].get("keys") != [want]:
                 raise Violation(["wrong-wire-key", path], "server parsed %r (errors %r), expected get %r: %s" % (srv.log, srv.errors, want, desc))
     return _nontrivial(key, bprefix, au), labels
+
+
+# ---- key objects that answer ==, != and bool() in their own way ---------------------------------------------------------
+
+class BlankEqKey(bytes):
+    """equal to anything that differs only by surrounding blanks"""
+
+    def __eq__(self, o):
+        return isinstance(o, (bytes, bytearray)) and bytes(self).strip() == bytes(o).strip()
+
+    def __ne__(self, o):
+        return not self.__eq__(o)
+
+    __hash__ = bytes.__hash__
+
+
+class StrictKey(bytes):
+    """equal only to keys of its own kind (a tenant-tagged key)"""
+
+    def __eq__(self, o):
+        return type(o) is StrictKey and bytes(self) == bytes(o)
+
+    def __ne__(self, o):
+        return not self.__eq__(o)
+
+    __hash__ = bytes.__hash__
+
+
+class FalsyKey(bytes):
+    def __bool__(self):
+        return False
+
+
+class FalsyStrKey(str):
+    def __bool__(self):
+        return False
+
+
+class BlankEqStrKey(str):
+    def __eq__(self, o):
+        return isinstance(o, str) and str(self).strip() == str(o).strip()
+
+    def __ne__(self, o):
+        return not self.__eq__(o)
+
+    __hash__ = str.__hash__
+
+
+KEY_WRAPS = {"blank-eq": BlankEqKey, "strict": StrictKey, "falsy": FalsyKey, "falsy-str": FalsyStrKey, "blank-eq-str": BlankEqStrKey}
+WRAP_KEYS = [b"abc", b" abc", b"abc ", b"\tabc\r\n", b"a b", b"a", b"\x00", b"k" * 250, b"k" * 251, b"caf\xc3\xa9", b"abc\r\nflush_all"]
+
+
+def key_object_cases(tier, seed):
+    for wrap in KEY_WRAPS:
+        for kb in WRAP_KEYS:
+            for prefix in (b"", b"p:"):
+                for au in (False, True):
+                    for path in _paths_cheap() + ["wire-client", "wire-pooled", "wire-hash", "wire-hash-pooled", "wire-client-ie", "wire-aws"]:
+                        yield {"key": kb, "wrap": wrap, "prefix": prefix, "au": au, "path": path}
+
+
+def check_key_object(case):
+    """what decides is the key's content (its bytes, or its text encoded): a key object of a bytes / str subclass with its own
+    ==, != or truth value is accepted, rejected and transmitted exactly like a plain key with the same content"""
+    klass = KEY_WRAPS[case["wrap"]]
+    kb = case["key"]
+    if issubclass(klass, str):
+        try:
+            plain = kb.decode("ascii")
+        except UnicodeDecodeError:
+            plain = kb.decode("utf-8")
+    else:
+        plain = kb
+    try:
+        nt, labels = check((klass(plain), case["prefix"], case["au"], case["path"]))
+    except Violation as v:
+        raise Violation(["key-object", case["wrap"]] + v.signature, "key object of class %s (%s): %s" % (klass.__name__, klass.__doc__ or "its own truth value", v))
+    return True, labels + ["key-object", case["wrap"]]
 
 
 def _paths_cheap():
@@ -361,6 +439,7 @@ def random_strategy(tier):
 
 
 PARTS = [
+    Part("key-objects", "enum", check_key_object, cases=key_object_cases, exhaustive=True),
     Part("class-exhaustive", "enum", check, cases=class_cases, exhaustive=True),
     Part("full-alphabet-short", "enum", check, cases=full_alphabet_cases, exhaustive=True),
     Part("every-position", "enum", check, cases=position_cases, exhaustive=True),
